@@ -73,11 +73,22 @@ def element_content_names():
 _VAL = {}
 
 
+_TVAL = {}
+
+
+def sample_for(resolved_type):
+    import json
+    k = json.dumps(resolved_type, sort_keys=True)
+    if k not in _TVAL:
+        _TVAL[k] = lex.Lex(resolved_type).sample_value()
+    return _TVAL[k]
+
+
 def valid_value(el_name):
     """a solver-chosen valid value for the element's simple content (None if it has none)"""
     if el_name not in _VAL:
         tn, c, st = type_of(el_name)
-        _VAL[el_name] = None if st is None else lex.Lex(st).sample_value()
+        _VAL[el_name] = None if st is None else sample_for(st)
     return _VAL[el_name]
 
 
@@ -92,7 +103,7 @@ def required_attrs(el_name):
         if c:
             for a in c['attrs']:
                 if a['required']:
-                    v = a['fixed'] if a.get('fixed') else lex.Lex(refmodel.attr_type(MODEL, a)).sample_value()
+                    v = a['fixed'] if a.get('fixed') else sample_for(refmodel.attr_type(MODEL, a))
                     out[a['name']] = v
         _ATTR[el_name] = out
     return _ATTR[el_name]
